@@ -13,6 +13,17 @@ import traceback
 from hsverif.scenarios import CATALOGUE, FAMILY_OF, LOAD_ERRORS
 
 
+def C07Probe_run(sc):
+    """Run a scenario under capped probes (never run catalogue scenarios bare: some spin)."""
+    from hsverif.c07_probe import C07Probe
+
+    with C07Probe(instant_cap=20000, total_cap=400000) as p:
+        try:
+            p.run(sc.sim)
+        except Exception as exc:  # noqa: BLE001
+            print("      library exception:", type(exc).__name__, exc)
+
+
 def main():
     ap = argparse.ArgumentParser()
     ap.add_argument("pattern", nargs="?", default="*")
@@ -23,9 +34,6 @@ def main():
     a = ap.parse_args()
     from hsverif.props.c07 import run_scenario
     from hsverif.scenarios._kit import hostile_params
-    from hsverif.c07_probe import driven_classes
-    import hsverif.props.c07 as c07
-
     names = [n for n in sorted(CATALOGUE) if fnmatch.fnmatch(n, a.pattern) or a.pattern in n]
     if LOAD_ERRORS:
         print("missing modules:", sorted(LOAD_ERRORS))
@@ -57,6 +65,10 @@ def main():
                 print("      inconclusive:", res.inconclusive)
             if a.snap and k == 0:
                 from hsverif.scenarios import build, snapshot
+
+                sc = build(n, a.seed, {})
+                C07Probe_run(sc)
+                print("      snapshot:", json.dumps(snapshot(sc), default=str)[:600])
     return 1 if bad else 0
 
 
